@@ -11,7 +11,8 @@ import sesslib
 from vlib import ToolError, log
 
 PUPPETS_QUICK = ["rec1", "loop2", "gen3"]
-PUPPETS_ALL = ["rec1", "loop2", "gen3", "mut4", "deep6"]
+PUPPETS_ALL = ["rec1", "loop2", "gen3", "mut4"]
+PUPPETS_DEEP = ["deep6"]          # recursion depth 100: C05 thorough only (long execution)
 
 # which verdict classes belong to which property
 OWN = {
@@ -31,8 +32,8 @@ STEP_CMDS = {"stepi", "step", "next", "finish"}
 RUN_CMDS = {"start", "continue"}
 
 
-def puppet_list(tier):
-    names = PUPPETS_QUICK if tier == "quick" else PUPPETS_ALL
+def puppet_list(tier, deep=False):
+    names = PUPPETS_QUICK if tier == "quick" else PUPPETS_ALL + (PUPPETS_DEEP if deep else [])
     if __import__("os").environ.get("VERIF_PUPPETS"):          # development aid
         names = __import__("os").environ["VERIF_PUPPETS"].split(",")
     return [sesslib.SESS_SRC / f"{n}.rs" for n in names if (sesslib.SESS_SRC / f"{n}.rs").exists()]
@@ -65,8 +66,8 @@ def gen_histories(p, cands, maxcmd, maxbps, num, seed, mix, maxbk=3):
     histories that together cover the most distinct (position, command) pairs."""
     d, cfg = p.tla_data(cands, maxcmd, maxbps, maxbk=maxbk)
     cfgg = cfg + "SPECIFICATION Spec\nINVARIANT EmitHist\n"
-    r = sesslib.tlc_in(d, "MC", cfgg, "MC_G.cfg", workers=1, simulate=max(400, num * 40), depth=maxcmd + 1,
-                       seed_arg=seed, timeout=600, heap="3g")
+    r = sesslib.tlc_in(d, "MC", cfgg, "MC_G.cfg", workers=1, simulate=min(1600, max(400, num * 40)), depth=maxcmd + 1,
+                       seed_arg=seed, timeout=1500, heap="3g")
     if r.error and not vlib.printed(r.out, "HIST"):
         raise ToolError(f"history generation failed: {r.error}\n{r.out[-2000:]}")
     hs = vlib.printed(r.out, "HIST")
